@@ -203,6 +203,8 @@ def Live (n : Node) (st : State) : Prop := n ∈ st.pool ∨ n.expiresAt ≤ st.
 /-- Side condition on every clock reading of a history at which a timestamp is compared. -/
 def ClockOk (P : Params) (t : Nat) : Prop := unixSec t + P.maxEpochDiff < 2 ^ 63
 
+instance (P : Params) (t : Nat) : Decidable (ClockOk P t) := by unfold ClockOk; infer_instance
+
 theorem live_step {P : Params} {n : Node} {st : State} (o : Op) (h : Live n st) : Live n (step P st o).1 := by
   cases o with
   | advance d =>
